@@ -69,6 +69,9 @@ def check(run):
     esc(run, p)
     bracket(run, p, I, flags, 'C03')
     widen(run, p, I)
+    from .. import ief, triage
+    ief.run_ief(run, 'C03', [p.fn(RX + 'extract'), p.fn(RX + 'pdextract')], triage=triage.IEF)
+    run.floor('C03-IEF', run.units['ief_functions_checked'], 60)
     run.trust('the interpreter\'s re module defines which characters a class such as \\d or [^\\W_] matches')
 
 
